@@ -3,6 +3,11 @@ CONSTANTS
   Parts = {"form", "meta"}
   Escaper = "html"
   PrefixCheckOnly = FALSE
+  ForeignNamespaceUnchecked = FALSE
+  Descs = {"IDPSSODescriptor", "SPSSODescriptor", "AuthnAuthorityDescriptor", "PDPDescriptor", "AttributeAuthorityDescriptor"}
+  BaseCases = TRUE
+  NsSet = {"mdPrefix", "selfPrefix", "ancestorPrefix", "foreignPrefix", "noNs", "undeclared"}
+  NsWide = FALSE
 INIT Init
 NEXT Next
 INVARIANTS
@@ -12,5 +17,6 @@ INVARIANTS
   RejectsHostile
   AcceptsGood
   UnknownBlanked
+  AllReachASlice
   Emit
 CHECK_DEADLOCK FALSE
